@@ -246,7 +246,7 @@ def run_storage(ctx, rt, *, prop, invariants, properties, view, mc, profiles, no
                     rt.log(r["out"][-1500:])
                     return 2
     # ---------------------------------------------------------------- (B)+(C) real executions validated against the spec
-    traces_dir = os.path.join(rt.OUT, "traces")
+    traces_dir = os.path.join(rt.OUT, "traces" if rt.REPO == "/repo" else "traces_alt_%d" % os.getpid())
     os.makedirs(traces_dir, exist_ok=True)
     cfg_text = TRACE_CFG + "INVARIANT InvModel\nINVARIANT InvDeviationLog\n" + "".join("INVARIANT %s\n" % i for i in invariants) + \
         "".join("PROPERTY %s\n" % p for p in properties)
